@@ -110,8 +110,8 @@ Proof. intros CL HU HS HLd. exact (LBp.bridged_pass_laws_inst C kind_of rts ev r
 Lemma cap_idem_laws : LBm.coding_law C -> LBp.Utf8Total rt0 ->
   (forall e, suppressed base (LBm.exn_map e) = true) -> (forall s, LBm.LoadLaws (rts s)) ->
   (forall s w m, Tm.enum_of_val (rts s) w = Tm.Ok m -> Tm.is_member (rts s) m = true) ->
-  V13.IdemLaws crt.
-Proof. intros CL HU HS HLd HE. exact (LBp.bridged_idem_laws C kind_of rts ev rt0 iob CL HU HS HLd HE). Qed.
+  LBp.base_idem kind_of base -> V13.IdemLaws crt.
+Proof. intros CL HU HS HLd HE HB. exact (LBp.bridged_idem_laws C kind_of rts ev rt0 iob CL HU HS HLd HE HB). Qed.
 
 Lemma cap_leaf_laws : LBm.coding_law C -> P03.LeafLaws crt (LBm.leaf_class_ok C kind_of rts).
 Proof. intros CL. exact (LBp.bridged_leaf_laws C kind_of rts ev rt0 iob CL). Qed.
@@ -131,27 +131,37 @@ Proof.
   intros s. exact (LBp.load_laws_from_serdes Tz srt (rts s) (H1 s) (H2 s)).
 Qed.
 
-(* ---- the bridged runtime has NO pass-through leaf: a container given to any leaf routine is outside the scalar
-   model (Unmodelled), so the hypothesis "noop_leaf s -> leaf_u rt s x = Ok x for every x" of C05 forces
-   noop_leaf = (fun _ => false) *)
-Lemma cap_leaf_u_container : forall s k l, leaf_u crt s (PSeq k l) = Unmodelled.
-Proof. intros s k l. cbn. unfold LBm.b_leaf_u. destruct (kind_of s); reflexivity. Qed.
-Lemma cap_leaf_m_container : forall s k l, leaf_m crt s (PSeq k l) <> Ok (PSeq k l).
+(* ---- pass-through leaves: the kind LAny of the leaf table (typing.Any / object / unresolvable: NoOp routines) hands
+   every core value back; a scalar kind answers Unmodelled on a container.  So whatever satisfies C05's hypothesis
+   "noop_leaf s -> leaf_u rt s x = Ok x for every x" is a pass-through leaf of the table, or a leaf the table does not
+   know (its routine is the base runtime's) *)
+Lemma cap_any_u : forall s x, LBm.any_leaf kind_of s = true -> leaf_u crt s x = Ok x.
+Proof. intros s x H. exact (LBp.any_leaf_u C kind_of rts ev rt0 iob s x H). Qed.
+Lemma cap_any_m : forall s x, LBm.any_leaf kind_of s = true -> leaf_m crt s x = Ok x.
+Proof. intros s x H. exact (LBp.any_leaf_m C kind_of rts ev rt0 iob s x H). Qed.
+Lemma cap_leaf_u_container : forall s k kd l, kind_of s = Some kd -> kd <> LBm.LAny -> leaf_u crt s (PSeq k l) = Unmodelled.
+Proof. intros s k kd l Hk Hn. cbn. unfold LBm.b_leaf_u. rewrite Hk. destruct kd; try reflexivity. congruence. Qed.
+Lemma cap_leaf_m_container : forall s k kd l, kind_of s = Some kd -> kd <> LBm.LAny -> leaf_m crt s (PSeq k l) <> Ok (PSeq k l).
 Proof.
-  intros s k l. cbn. unfold LBm.b_leaf_m. destruct (kind_of s) as [kd|]; [|discriminate].
-  destruct kd; cbn; discriminate.
+  intros s k kd l Hk Hn. cbn. unfold LBm.b_leaf_m. rewrite Hk. destruct kd; cbn; try discriminate. congruence.
 Qed.
 Lemma cap_noop_forced_u (noop_leaf : nat -> bool) :
-  (forall s x, noop_leaf s = true -> leaf_u crt s x = Ok x) -> forall s, noop_leaf s = false.
+  (forall s x, noop_leaf s = true -> leaf_u crt s x = Ok x) ->
+  forall s, noop_leaf s = true -> LBm.any_leaf kind_of s = true \/ kind_of s = None.
 Proof.
-  intros H s. destruct (noop_leaf s) eqn:Hs; [|reflexivity].
-  specialize (H s (PSeq KList []) Hs). rewrite cap_leaf_u_container in H. discriminate H.
+  intros H s Hs. unfold LBm.any_leaf. destruct (kind_of s) as [kd|] eqn:Hk; [|right; reflexivity].
+  assert (Dk : kd = LBm.LAny \/ kd <> LBm.LAny) by (destruct kd; try (right; discriminate); left; reflexivity).
+  destruct Dk as [->|Hn]; [left; reflexivity|].
+  specialize (H s (PSeq KList []) Hs). rewrite (cap_leaf_u_container s KList kd [] Hk Hn) in H. discriminate H.
 Qed.
 Lemma cap_noop_forced_m (noop_leaf : nat -> bool) :
-  (forall s x, noop_leaf s = true -> leaf_m crt s x = Ok x) -> forall s, noop_leaf s = false.
+  (forall s x, noop_leaf s = true -> leaf_m crt s x = Ok x) ->
+  forall s, noop_leaf s = true -> LBm.any_leaf kind_of s = true \/ kind_of s = None.
 Proof.
-  intros H s. destruct (noop_leaf s) eqn:Hs; [|reflexivity].
-  exfalso. exact (cap_leaf_m_container s KList [] (H s (PSeq KList []) Hs)).
+  intros H s Hs. unfold LBm.any_leaf. destruct (kind_of s) as [kd|] eqn:Hk; [|right; reflexivity].
+  assert (Dk : kd = LBm.LAny \/ kd <> LBm.LAny) by (destruct kd; try (right; discriminate); left; reflexivity).
+  destruct Dk as [->|Hn]; [left; reflexivity|].
+  exfalso. exact (cap_leaf_m_container s KList kd [] Hk Hn (H s (PSeq KList []) Hs)).
 Qed.
 
 Lemma cap_none_is_atom : exists a, none crt = PAtom a.
@@ -299,6 +309,8 @@ End Mechanism.
 (* ================================================================== C. everything composed: the runtime of A, the
    environment and node orders of the graph model (C05Bridge), the mechanism (C05), the value theorems *)
 Definition no_noop : nat -> bool := fun _ => false.
+Lemma no_noop_sub (kind_of : nat -> option LBm.leafkind) : forall s, no_noop s = true -> LBm.any_leaf kind_of s = true.
+Proof. intros s H. discriminate H. Qed.
 
 Section Composed.
 Variable C : LBm.coding.
@@ -314,20 +326,22 @@ Variable base : runtime.
 Variable N : GBm.naming.
 Variable G : TL.Model.Graph.env.
 Variable orders : ty -> option (list node).
+Variable noop : nat -> bool.                (* C05's noop_leaf: any set of pass-through leaves of the leaf table *)
 
 Notation E := (GBm.tr_env N G).
 Notation crt := (cap_runtime C kind_of rts mv rt0 P E ib T srt base).
 Notation lvs := (LBm.lv C kind_of rts mv true).
 
 Hypothesis CL : LBm.coding_law C.
-Hypothesis GO : GBp.graph_orders N G no_noop orders.
+Hypothesis NS : forall s, noop s = true -> LBm.any_leaf kind_of s = true.
+Hypothesis GO : GBp.graph_orders N G noop orders.
 
-Lemma cap_contract dir : TL.Props.C05.orders_contract E dir no_noop orders.
-Proof. exact (GBp.contract_from_graph N G dir no_noop orders GO). Qed.
-Lemma cap_noop_u : forall s x, no_noop s = true -> leaf_u crt s x = Ok x.
-Proof. intros s x H. discriminate H. Qed.
-Lemma cap_noop_m : forall s x, no_noop s = true -> leaf_m crt s x = Ok x.
-Proof. intros s x H. discriminate H. Qed.
+Lemma cap_contract dir : TL.Props.C05.orders_contract E dir noop orders.
+Proof. exact (GBp.contract_from_graph N G dir noop orders GO). Qed.
+Lemma cap_noop_u : forall s x, noop s = true -> leaf_u crt s x = Ok x.
+Proof. intros s x H. exact (cap_any_u C kind_of rts mv rt0 P E ib T srt base s x (NS s H)). Qed.
+Lemma cap_noop_m : forall s x, noop s = true -> leaf_m crt s x = Ok x.
+Proof. intros s x H. exact (cap_any_m C kind_of rts mv rt0 P E ib T srt base s x (NS s H)). Qed.
 
 (* the mechanism along ANY translated topological order computes the reference semantics on the composed runtime *)
 Lemma cap_mech_is_reference : forall Ty fuel x,
@@ -335,8 +349,8 @@ Lemma cap_mech_is_reference : forall Ty fuel x,
   (done (api_call crt E orders false fuel Ty x) = true -> ev (fun m => mar crt E m Ty x) (api_call crt E orders false fuel Ty x)).
 Proof.
   intros Ty fuel x. split.
-  - exact (api_u_ev crt E no_noop orders (cap_contract true) cap_noop_u Ty fuel x).
-  - exact (api_m_ev crt E no_noop orders (cap_contract false) cap_noop_m Ty fuel x).
+  - exact (api_u_ev crt E noop orders (cap_contract true) cap_noop_u Ty fuel x).
+  - exact (api_m_ev crt E noop orders (cap_contract false) cap_noop_m Ty fuel x).
 Qed.
 
 (* (1) C01 end to end *)
@@ -349,7 +363,7 @@ Lemma cap_C01_roundtrip : (forall s, Sc.RuntimeLaws (rts s)) -> (forall s, LBm.F
     api_call crt E orders true fu Ty w = Ok v.
 Proof.
   intros HL HF.
-  exact (mech_roundtrip crt E no_noop orders (cap_contract true) (cap_contract false) cap_noop_u cap_noop_m lvs
+  exact (mech_roundtrip crt E noop orders (cap_contract true) (cap_contract false) cap_noop_u cap_noop_m lvs
            (cap_round_laws C kind_of rts mv rt0 P E ib T srt base CL HL HF)).
 Qed.
 
@@ -362,7 +376,7 @@ Lemma cap_C01_fixpoint : (forall s, Sc.RuntimeLaws (rts s)) -> (forall s, LBm.Fo
     api_call crt E orders false fm' Ty v' = Ok m.
 Proof.
   intros HL HF.
-  exact (mech_fixpoint crt E no_noop orders (cap_contract true) (cap_contract false) cap_noop_u cap_noop_m lvs
+  exact (mech_fixpoint crt E noop orders (cap_contract true) (cap_contract false) cap_noop_u cap_noop_m lvs
            (cap_round_laws C kind_of rts mv rt0 P E ib T srt base CL HL HF)).
 Qed.
 
@@ -397,7 +411,7 @@ Lemma cap_C03_conforms : P03.wf_env E ->
     exists n, M03.conforms crt E (LBm.leaf_class_ok C kind_of rts) n Ty v = true.
 Proof.
   intros WF.
-  exact (mech_conforms crt E no_noop orders (cap_contract true) cap_noop_u _
+  exact (mech_conforms crt E noop orders (cap_contract true) cap_noop_u _
            (cap_leaf_laws C kind_of rts mv rt0 P E ib T srt base CL) WF).
 Qed.
 
@@ -410,7 +424,7 @@ Lemma cap_C13_passthrough : forall Tz, LBp.Utf8Total rt0 -> (forall e, suppresse
     done (api_call crt E orders true fuel Ty v) = true -> api_call crt E orders true fuel Ty v = Ok v.
 Proof.
   intros Tz HU HS H1 H2 WF.
-  exact (mech_passthrough crt E no_noop orders (cap_contract true) cap_noop_u _
+  exact (mech_passthrough crt E noop orders (cap_contract true) cap_noop_u _
            (cap_pass_laws_inst C kind_of rts mv rt0 P E ib T srt base CL HU HS
               (proj1 (cap_load_laws_same_serdes C kind_of rts mv rt0 P E ib T srt base Tz H1 H2))) WF).
 Qed.
@@ -418,15 +432,16 @@ Qed.
 Lemma cap_C13_idempotent : forall Tz, LBp.Utf8Total rt0 -> (forall e, suppressed base (LBm.exn_map e) = true) ->
   (forall s, LBm.SLoadLaw Tz srt (rts s)) -> (forall s, LBm.SShapeLaws Tz (rts s)) ->
   (forall s w m, Tm.enum_of_val (rts s) w = Tm.Ok m -> Tm.is_member (rts s) m = true) ->
+  LBp.base_idem kind_of base ->
   V13.wf_env E -> V13.DefaultsConform crt E ->
   forall Ty, (forall k, V13.optional_only E k Ty = true) ->
   forall f1 f2 x y, api_call crt E orders true f1 Ty x = Ok y ->
     done (api_call crt E orders true f2 Ty y) = true -> api_call crt E orders true f2 Ty y = Ok y.
 Proof.
-  intros Tz HU HS H1 H2 HE WF DC.
-  exact (mech_idempotent crt E no_noop orders (cap_contract true) cap_noop_u
+  intros Tz HU HS H1 H2 HE HB WF DC.
+  exact (mech_idempotent crt E noop orders (cap_contract true) cap_noop_u
            (cap_idem_laws C kind_of rts mv rt0 P E ib T srt base CL HU HS
-              (proj1 (cap_load_laws_same_serdes C kind_of rts mv rt0 P E ib T srt base Tz H1 H2)) HE) WF DC).
+              (proj1 (cap_load_laws_same_serdes C kind_of rts mv rt0 P E ib T srt base Tz H1 H2)) HE HB) WF DC).
 Qed.
 
 (* (4) C06: wire output of the mechanism -- NO interpreter law *)
@@ -437,7 +452,7 @@ Lemma cap_C06_wire : forall strict R F Ty,
     M06.is_wire (LBm.prim_atom C) w = true /\ M06.built crt w.
 Proof.
   intros strict R F Ty FA.
-  exact (mech_wire crt E no_noop orders (cap_contract false) cap_noop_m _ _ _ R F _ _ _
+  exact (mech_wire crt E noop orders (cap_contract false) cap_noop_m _ _ _ R F _ _ _
            (cap_marshal_laws C kind_of rts mv rt0 P E ib T srt base CL strict) Ty FA).
 Qed.
 
@@ -450,7 +465,7 @@ Lemma cap_C08_first_acceptor : LBp.Utf8Total rt0 -> (forall e, suppressed base (
         forall j tj, j < i -> nth_error ts j = Some tj -> TL.Proofs.UnionBridge.c_rejects crt (unm crt E (S k) tj) x.
 Proof.
   intros HU HS.
-  exact (mech_union_first_acceptor crt E no_noop orders (cap_contract true) cap_noop_u
+  exact (mech_union_first_acceptor crt E noop orders (cap_contract true) cap_noop_u
            (cap_none_laws C kind_of rts mv rt0 P E ib T srt base CL HU HS)).
 Qed.
 
@@ -558,13 +573,15 @@ Variable base : runtime.
 Variable N : GBm.naming.
 Variable G : TL.Model.Graph.env.
 Variable orders : ty -> option (list node).
+Variable noop : nat -> bool.
 
 Notation E := (GBm.tr_env N G).
 Notation crt := (cap_runtime C kind_of rts mv rt0 P E ib T srt base).
 Notation lvs := (LBm.lv C kind_of rts mv true).
 
 Hypothesis CL : LBm.coding_law C.
-Hypothesis GO : GBp.graph_orders N G no_noop orders.
+Hypothesis NS : forall s, noop s = true -> LBm.any_leaf kind_of s = true.
+Hypothesis GO : GBp.graph_orders N G noop orders.
 Hypothesis HL : forall s, Sc.RuntimeLaws (rts s).
 Hypothesis HF : forall s, LBm.FoldLaws (rts s).
 
@@ -587,7 +604,7 @@ Lemma cap_C02_roundtrip atab ktab unat st strict surr dom isb class_of :
                  (TL.Proofs.JsonLemmas.known_style st -> Js.std_loads b = Some j /\ Js.std_utf8_branch b = true)).
 Proof.
   intros TLw Hsp n Ty v fm fu w j Hv Hg Hu Hd Hm Ht Hdm Hn Hdu.
-  pose proof (cap_C01_roundtrip C kind_of rts mv rt0 P ib T srt base N G orders CL GO HL HF n Ty v fm fu w Hv Hg Hu Hd Hm Hdu) as Hr.
+  pose proof (cap_C01_roundtrip C kind_of rts mv rt0 P ib T srt base N G orders noop CL NS GO HL HF n Ty v fm fu w Hv Hg Hu Hd Hm Hdu) as Hr.
   split; [exact (mechM_roundtrip atab ktab unat crt E orders st strict surr dom isb class_of TLw Hsp fm fu Ty v w j Hm Ht Hdm Hn Hr)|].
   split; [exact (proj1 (mechM_entry_points atab ktab unat crt E orders st strict surr dom isb class_of fm fu Ty v (CB.OVal v)))|].
   intros Hb. exact (mechM_valid_json atab ktab unat crt E orders st strict surr dom isb TLw Hsp fm fu Ty v w j Hb Hm Ht Hdm).
@@ -612,17 +629,18 @@ Lemma cap_C01_any_history uw_fuel is_text max_load alias_load enc dec byteslike 
     r = Ok v.
 Proof.
   exact (TL.Props.C12Bridge.C01_roundtrip_in_any_history crt E orders uw_fuel is_text max_load alias_load enc dec byteslike
-           no_noop (cap_contract N G orders GO true) (cap_contract N G orders GO false)
-           (cap_noop_u C kind_of rts mv rt0 P ib T srt base N G)
-           (cap_noop_m C kind_of rts mv rt0 P ib T srt base N G)
+           noop (cap_contract N G orders noop GO true) (cap_contract N G orders noop GO false)
+           (cap_noop_u C kind_of rts mv rt0 P ib T srt base N G noop NS)
+           (cap_noop_m C kind_of rts mv rt0 P ib T srt base N G noop NS)
            lvs (cap_round_laws C kind_of rts mv rt0 P E ib T srt base CL HL HF)).
 Qed.
 
 End ComposedCodec.
 
 (* C03 in any history needs no interpreter law at all *)
-Lemma cap_C03_any_history C kind_of rts mv rt0 P ib T srt base N G orders :
-  LBm.coding_law C -> GBp.graph_orders N G no_noop orders -> P03.wf_env (GBm.tr_env N G) ->
+Lemma cap_C03_any_history C kind_of rts mv rt0 P ib T srt base N G orders noop :
+  LBm.coding_law C -> (forall s, noop s = true -> LBm.any_leaf kind_of s = true) ->
+  GBp.graph_orders N G noop orders -> P03.wf_env (GBm.tr_env N G) ->
   forall uw_fuel is_text max_load alias_load enc dec byteslike fuel h,
     TL.Model.CacheBridge.clean_hist (cap_runtime C kind_of rts mv rt0 P (GBm.tr_env N G) ib T srt base) (GBm.tr_env N G)
       orders uw_fuel is_text max_load alias_load enc dec byteslike fuel TL.Model.CacheBridge.cinit h = true ->
@@ -634,9 +652,9 @@ Lemma cap_C03_any_history C kind_of rts mv rt0 P ib T srt base N G orders :
     exists n, M03.conforms (cap_runtime C kind_of rts mv rt0 P (GBm.tr_env N G) ib T srt base) (GBm.tr_env N G)
                 (LBm.leaf_class_ok C kind_of rts) n Ty v = true.
 Proof.
-  intros CL GO WF uw_fuel is_text max_load alias_load enc dec byteslike.
+  intros CL NS GO WF uw_fuel is_text max_load alias_load enc dec byteslike.
   exact (TL.Props.C12Bridge.C03_conforms_in_any_history _ _ orders uw_fuel is_text max_load alias_load enc dec byteslike
-           no_noop (cap_contract N G orders GO true) (cap_noop_u C kind_of rts mv rt0 P ib T srt base N G)
+           noop (cap_contract N G orders noop GO true) (cap_noop_u C kind_of rts mv rt0 P ib T srt base N G noop NS)
            _ (cap_leaf_laws C kind_of rts mv rt0 P (GBm.tr_env N G) ib T srt base CL) WF).
 Qed.
 
@@ -645,8 +663,8 @@ Qed.
    denotes exactly the value the mechanism returns, that value is wire data, no mutable object of it existed before the
    call, and every object that existed before is unchanged. *)
 Module Hp := TL.Model.Heap.
-Lemma cap_C06_heap C kind_of rts mv rt0 P ib T srt base N G orders :
-  LBm.coding_law C -> GBp.graph_orders N G no_noop orders ->
+Lemma cap_C06_heap C kind_of rts mv rt0 P ib T srt base N G orders noop :
+  LBm.coding_law C -> (forall s, noop s = true -> LBm.any_leaf kind_of s = true) -> GBp.graph_orders N G noop orders ->
   forall (hr : Hp.hruntime) fu strict R F Ty,
   Hp.AllocLaws hr -> Hp.FreshLaws hr (LBm.robust_leaf kind_of) fu ->
   M06.fully_annotated (GBm.tr_env N G) (LBm.robust_leaf kind_of) (LBm.robust_leaf kind_of) true R F Ty ->
@@ -660,18 +678,18 @@ Lemma cap_C06_heap C kind_of rts mv rt0 P ib T srt base N G orders :
     (forall p, Hp.reach h' l' p -> Hp.mutable_at h' p = true -> List.length h <= p) /\
     (forall k p x, Hp.read k h p = Some x -> Hp.read k h' p = Some x).
 Proof.
-  intros CL GO hr fu strict R F Ty HA HFr FA fuel fm n h l v h' l' w Hr Hv Hh Hm.
+  intros CL NS GO hr fu strict R F Ty HA HFr FA fuel fm n h l v h' l' w Hr Hv Hh Hm.
   set (crt := cap_runtime C kind_of rts mv rt0 P (GBm.tr_env N G) ib T srt base) in *.
   pose proof (TL.Props.C06Heap.C06H_marshal_refines crt hr (GBm.tr_env N G) HA fuel Ty h l v Hr) as Hrf.
   rewrite Hh in Hrf. unfold Hp.refines in Hrf.
   destruct (mar crt (GBm.tr_env N G) fuel Ty v) as [w0| | |] eqn:Hm0; try contradiction.
   assert (Hw : Ok w0 = Ok w).
   { rewrite <- Hm0. apply mar_done_ev; [rewrite Hm0; reflexivity|]. rewrite <- Hm.
-    apply (proj2 (cap_mech_is_reference C kind_of rts mv rt0 P ib T srt base N G orders GO Ty fm v)).
+    apply (proj2 (cap_mech_is_reference C kind_of rts mv rt0 P ib T srt base N G orders noop NS GO Ty fm v)).
     fold crt. rewrite Hm. reflexivity. }
   injection Hw as ->.
   split; [exact Hrf|].
-  split; [exact (proj1 (cap_C06_wire C kind_of rts mv rt0 P ib T srt base N G orders CL GO strict R F Ty FA fm n v w Hv Hm))|].
+  split; [exact (proj1 (cap_C06_wire C kind_of rts mv rt0 P ib T srt base N G orders noop CL NS GO strict R F Ty FA fm n v w Hv Hm))|].
   split.
   - exact (TL.Props.C06Heap.C06H_fresh_fully_annotated crt hr (GBm.tr_env N G) (LBm.robust_leaf kind_of) (LBm.robust_leaf kind_of)
              (LBm.robust_leaf kind_of) fu R F HA HFr (cap_none_is_atom C kind_of rts mv rt0 P (GBm.tr_env N G) ib T srt base)
@@ -679,62 +697,53 @@ Proof.
   - exact (proj2 (TL.Props.C06Heap.C06H_marshal_frame crt hr (GBm.tr_env N G) HA fuel Ty h l h' l' Hh)).
 Qed.
 
-(* ================================================================== G. where two bridges do NOT compose: Any *)
+(* ================================================================== G. Any fields: the pass-through kind of the leaf table *)
 (* C05Bridge's guard classes_ok asks, for a class with a field annotated typing.Any, that Any be a pass-through leaf
    (noop_leaf (any_id N) = true: graph.py gives the field no node and the structured routine falls back to the no-op
-   routine); C05 then asks leaf_u rt s x = Ok x for EVERY x at such a leaf.  LeafBridge's runtime has no such leaf:
-   Any is not among its kinds and every leaf routine answers Unmodelled on a container.  So for the runtime of A every
+   routine); C05 then asks leaf_u rt s x = Ok x for EVERY x at such a leaf.  The OLD leaf table had no such leaf (every
+   kind was a scalar kind and answered Unmodelled on a container): if the table binds any_id N to a scalar kind, every
    environment with an Any field is outside the composition, whatever noop_leaf is chosen. *)
 Lemma cap_any_field_excluded C kind_of rts mv rt0 P E' ib T srt base :
-  forall (N : GBm.naming) (G : TL.Model.Graph.env) (noop_leaf : nat -> bool) (g : TL.Model.Graph.adjacency) p preds c d,
+  forall (N : GBm.naming) (G : TL.Model.Graph.env) (noop_leaf : nat -> bool) (g : TL.Model.Graph.adjacency) p preds c d kd,
+    kind_of (GBm.any_id N) = Some kd -> kd <> LBm.LAny ->
     In (p, preds) g -> TL.Model.Graph.nunw p = TL.Model.Graph.GClass c -> G c = Some d ->
     In TL.Model.Graph.GAny (map snd (TL.Model.Graph.cfields d)) ->
     GBp.bridge_guard N G noop_leaf g = true ->
     (forall s x, noop_leaf s = true -> leaf_u (cap_runtime C kind_of rts mv rt0 P E' ib T srt base) s x = Ok x) ->
     False.
 Proof.
-  intros N G noop_leaf g p preds c d Hin Hp Hc Hany Hb Hn.
+  intros N G noop_leaf g p preds c d kd Hk Hkd Hin Hp Hc Hany Hb Hn.
   unfold GBp.bridge_guard in Hb. apply andb_prop in Hb. destruct Hb as [Hcl _].
   unfold GBp.classes_ok in Hcl. rewrite forallb_forall in Hcl. specialize (Hcl (p, preds) Hin). cbn [fst] in Hcl.
   rewrite Hp in Hcl. destruct (GBp.class_guard_rel N G noop_leaf c Hcl) as [d' [Hd' [_ Ha]]].
   rewrite Hc in Hd'. injection Hd' as <-.
-  pose proof (cap_noop_forced_u C kind_of rts mv rt0 P E' ib T srt base noop_leaf Hn (GBm.any_id N)) as Hf.
-  rewrite (Ha Hany) in Hf. discriminate Hf.
+  destruct (cap_noop_forced_u C kind_of rts mv rt0 P E' ib T srt base noop_leaf Hn (GBm.any_id N) (Ha Hany)) as [Hf|Hf].
+  - unfold LBm.any_leaf in Hf. rewrite Hk in Hf. destruct kd; try discriminate Hf. congruence.
+  - rewrite Hk in Hf. discriminate Hf.
 Qed.
 
-(* The missing piece, as a local variant: a runtime that answers leaf [a] (typing.Any) with its input, both ways.
-   Every law record that is stated per leaf transfers when the leaf predicate is extended to "anything is valid at a";
-   with it the composition goes through for environments with Any fields (noop_leaf = only a). *)
-Definition with_any (a : nat) (rt : runtime) : runtime := {|
-  leaf_u := fun s x => if Nat.eqb s a then Ok x else leaf_u rt s x;
-  leaf_m := fun s x => if Nat.eqb s a then Ok x else leaf_m rt s x;
-  none_u := none_u rt; load_scalar := load_scalar rt; values_scalar := values_scalar rt;
-  items_scalar := items_scalar rt; pairlike_scalar := pairlike_scalar rt; unpack_scalar := unpack_scalar rt;
-  index := index rt; unhashable_class := unhashable_class rt; atom_eq := atom_eq rt; none := none rt;
-  suppressed := suppressed rt |}.
+(* With the pass-through kind the composition covers environments WITH Any fields: bind any_id N to LAny.  [with_any a
+   kind_of] is that table; anything is valid at the leaf, and noop_leaf = exactly that leaf is accepted. *)
+Definition with_any (a : nat) (kind_of : nat -> option LBm.leafkind) : nat -> option LBm.leafkind :=
+  fun s => if Nat.eqb s a then Some LBm.LAny else kind_of s.
 Definition only_leaf (a : nat) : nat -> bool := fun s => Nat.eqb s a.
-Definition lv_any (a : nat) (lv : nat -> pv -> bool) : nat -> pv -> bool := fun s v => Nat.eqb s a || lv s v.
-
-Lemma with_any_noop_u a rt : forall s x, only_leaf a s = true -> leaf_u (with_any a rt) s x = Ok x.
-Proof. intros s x H. unfold only_leaf in H. cbn. rewrite H. reflexivity. Qed.
-Lemma with_any_noop_m a rt : forall s x, only_leaf a s = true -> leaf_m (with_any a rt) s x = Ok x.
-Proof. intros s x H. unfold only_leaf in H. cbn. rewrite H. reflexivity. Qed.
-
-Lemma with_any_round_laws a rt lv : M01.RoundLaws rt lv -> M01.RoundLaws (with_any a rt) (lv_any a lv).
-Proof.
-  intros [Hr Hn]. constructor.
-  - intros s v w Hv Hm. unfold lv_any in Hv. cbn in Hm |- *. destruct (Nat.eqb s a) eqn:Hs.
-    + injection Hm as <-. reflexivity.
-    + cbn in Hv. exact (Hr s v w Hv Hm).
-  - intros v Hv. exact (Hn v Hv).
-Qed.
+Lemma only_leaf_sub a kind_of : forall s, only_leaf a s = true -> LBm.any_leaf (with_any a kind_of) s = true.
+Proof. intros s H. unfold only_leaf in H. unfold LBm.any_leaf, with_any. rewrite H. reflexivity. Qed.
+Lemma with_any_noop_u C a kind_of rts mv rt0 P E ib T srt base : forall s x, only_leaf a s = true ->
+  leaf_u (cap_runtime C (with_any a kind_of) rts mv rt0 P E ib T srt base) s x = Ok x.
+Proof. intros s x H. exact (cap_any_u C _ rts mv rt0 P E ib T srt base s x (only_leaf_sub a kind_of s H)). Qed.
+Lemma with_any_lv C a kind_of rts mv strict : forall x, LBm.lv C (with_any a kind_of) rts mv strict a x = true.
+Proof. intros x. unfold LBm.lv, with_any. rewrite Nat.eqb_refl. reflexivity. Qed.
+Lemma with_any_other C a kind_of rts mv strict : forall s x, Nat.eqb s a = false ->
+  LBm.lv C (with_any a kind_of) rts mv strict s x = LBm.lv C kind_of rts mv strict s x.
+Proof. intros s x H. unfold LBm.lv, with_any. rewrite H. reflexivity. Qed.
 
 Lemma cap_C01_roundtrip_with_any C kind_of rts mv rt0 P ib T srt base N G orders :
   LBm.coding_law C -> (forall s, Sc.RuntimeLaws (rts s)) -> (forall s, LBm.FoldLaws (rts s)) ->
   GBp.graph_orders N G (only_leaf (GBm.any_id N)) orders ->
   forall n Ty v fm fu w,
-    let rt := with_any (GBm.any_id N) (cap_runtime C kind_of rts mv rt0 P (GBm.tr_env N G) ib T srt base) in
-    let lva := lv_any (GBm.any_id N) (LBm.lv C kind_of rts mv true) in
+    let rt := cap_runtime C (with_any (GBm.any_id N) kind_of) rts mv rt0 P (GBm.tr_env N G) ib T srt base in
+    let lva := LBm.lv C (with_any (GBm.any_id N) kind_of) rts mv true in
     M01.valid rt lva (GBm.tr_env N G) n Ty v = true -> M01.c01_guard rt (GBm.tr_env N G) n Ty v = true ->
     M01.union_unamb rt lva (GBm.tr_env N G) n Ty v = true ->
     done (mar rt (GBm.tr_env N G) n Ty v) = true ->
@@ -743,11 +752,8 @@ Lemma cap_C01_roundtrip_with_any C kind_of rts mv rt0 P ib T srt base N G orders
     api_call rt (GBm.tr_env N G) orders true fu Ty w = Ok v.
 Proof.
   intros CL HL HF GO n Ty v fm fu w rt lva.
-  exact (mech_roundtrip rt (GBm.tr_env N G) (only_leaf (GBm.any_id N)) orders
-           (GBp.contract_from_graph N G true _ orders GO) (GBp.contract_from_graph N G false _ orders GO)
-           (with_any_noop_u _ _) (with_any_noop_m _ _) lva
-           (with_any_round_laws _ _ _ (cap_round_laws C kind_of rts mv rt0 P (GBm.tr_env N G) ib T srt base CL HL HF))
-           n Ty v fm fu w).
+  exact (cap_C01_roundtrip C (with_any (GBm.any_id N) kind_of) rts mv rt0 P ib T srt base N G orders
+           (only_leaf (GBm.any_id N)) CL (only_leaf_sub _ kind_of) GO HL HF n Ty v fm fu w).
 Qed.
 
 (* ================================================================== H. the example instance *)
@@ -954,11 +960,12 @@ Proof. eexists. repeat split; vm_compute; reflexivity. Qed.
 
 (* the exclusion is not vacuous: for  class Node: nxt: Optional[Node]; kids: list[Node]; s: int; t: Any
    (Props/C05Bridge.v: brE2, brN2) the graph side of the bridge IS satisfiable (Any passes through), yet no runtime of
-   the form cap_runtime satisfies C05's pass-through hypothesis for any noop_leaf accepted by the guard *)
+   the form cap_runtime whose table binds Any to a scalar kind satisfies C05's pass-through hypothesis for any noop_leaf accepted by the guard *)
 Lemma cap_any_witness :
   exists g, TL.Model.Graph.type_graph 20 TL.Props.C05Bridge.brE2 (TL.Model.Graph.GClass 0) = TL.Model.Graph.Ok g /\
     GBp.bridge_guard TL.Props.C05Bridge.brN2 TL.Props.C05Bridge.brE2 TL.Props.C05Bridge.any_leaf g = true /\
-    forall C kind_of rts mv rt0 P E' ib T srt base noop_leaf,
+    forall C kind_of rts mv rt0 P E' ib T srt base noop_leaf kd,
+      kind_of (GBm.any_id TL.Props.C05Bridge.brN2) = Some kd -> kd <> LBm.LAny ->
       GBp.bridge_guard TL.Props.C05Bridge.brN2 TL.Props.C05Bridge.brE2 noop_leaf g = true ->
       ~ (forall s x, noop_leaf s = true -> leaf_u (cap_runtime C kind_of rts mv rt0 P E' ib T srt base) s x = Ok x).
 Proof.
@@ -970,9 +977,9 @@ Proof.
   pose proof (find_some _ _ Hf) as [Hin _].
   vm_compute in Hg. inversion Hg; subst; clear Hg. vm_compute in Hf. inversion Hf; subst; clear Hf.
   split; [vm_compute; reflexivity|].
-  intros C kind_of rts mv rt0 P E' ib T srt base noop_leaf Hb Hn.
+  intros C kind_of rts mv rt0 P E' ib T srt base noop_leaf kd Hk Hkd Hb Hn.
   eapply (cap_any_field_excluded C kind_of rts mv rt0 P E' ib T srt base TL.Props.C05Bridge.brN2 TL.Props.C05Bridge.brE2
-            noop_leaf _ _ _ 0 _ Hin); [reflexivity | reflexivity | | exact Hb | exact Hn].
+            noop_leaf _ _ _ 0 _ kd Hk Hkd Hin); [reflexivity | reflexivity | | exact Hb | exact Hn].
   cbn. tauto.
 Qed.
 
@@ -995,6 +1002,19 @@ Lemma same_serdes_joint rt Tz srt : Sc.RuntimeLaws rt -> LBm.FoldLaws rt ->
 Proof.
   intros HL [h1 h2] Hf. split; [exact (with_load_runtime_laws rt _ HL Hf)|].
   split; [constructor; assumption|]. exact (LBp.with_load_law Tz srt rt).
+Qed.
+
+(* ... and that law is C14's theorem (C14_load_plain_text) transported, given the shape of text carriers and the two
+   interpreter facts about the text of a UUID (the JSON decoder rejects it, literal_eval rejects it) *)
+Lemma same_serdes_from_c14 rt Tz srt cp : Sc.RuntimeLaws rt -> LBm.FoldLaws rt -> TL.Model.Serdes.RuntimeLaws srt ->
+  LBm.STextLaws Tz srt rt cp -> LBm.UuidTextFacts srt rt cp ->
+  Sc.RuntimeLaws (LBm.with_load rt (LBm.ind_load Tz srt)) /\ LBm.FoldLaws (LBm.with_load rt (LBm.ind_load Tz srt)) /\
+  LBm.SLoadLaw Tz srt (LBm.with_load rt (LBm.ind_load Tz srt)).
+Proof.
+  intros HL HF SL ST UF. apply (same_serdes_joint rt Tz srt HL HF).
+  intros u c Hc.
+  assert (ST' : LBm.STextLaws Tz srt (LBm.with_load rt (LBm.ind_load Tz srt)) cp) by (destruct ST; constructor; assumption).
+  exact (LBp.uuid_text_from_serdes Tz srt (LBm.with_load rt (LBm.ind_load Tz srt)) cp (LBp.with_load_law Tz srt rt) SL ST' UF u c Hc).
 Qed.
 
 (* the two EXISTING toy interpreters do not satisfy it together: a UUID of the scalar toy is any token and its text is
@@ -1020,6 +1040,26 @@ Lemma ex2_uuid_text u c : Sc.hashable c = true ->
 Proof.
   intros Hc. destruct c; try discriminate Hc; cbn;
     rewrite map_map, (map_ext _ (fun a => a) ascii_N_embedding), map_id, string_of_list_ascii_of_string; reflexivity.
+Qed.
+Lemma srt_nojson_laws : TL.Model.Serdes.RuntimeLaws srt_nojson.
+Proof.
+  constructor; intros; cbn in *; try reflexivity;
+    match goal with H : TL.Model.Serdes.Raise _ = TL.Model.Serdes.Raise _ |- _ => injection H as <-; reflexivity end.
+Qed.
+Lemma codes_encodable s : TL.Model.Serdes.encodable (LBm.codes s) = true.
+Proof.
+  unfold TL.Model.Serdes.encodable, LBm.codes. apply forallb_forall. intros c Hc.
+  apply in_map_iff in Hc as [a [<- _]]. pose proof (N_ascii_bounded a) as Hb.
+  unfold TL.Model.Serdes.scalar_cp. apply andb_true_iff. split; [apply orb_true_iff; left|]; apply N.ltb_lt; lia.
+Qed.
+Lemma ex2_uuid_facts : LBm.UuidTextFacts srt_nojson TL.Model.ScalarsToy.toy_rt LBm.codes.
+Proof. intros u. split; [apply codes_encodable|]. split; eexists; reflexivity. Qed.
+Lemma ex2_joint_from_c14 :
+  Sc.RuntimeLaws ex2_srt_rt /\ LBm.FoldLaws ex2_srt_rt /\ LBm.SLoadLaw LBm.std_sshape srt_nojson ex2_srt_rt.
+Proof.
+  exact (same_serdes_from_c14 TL.Model.ScalarsToy.toy_rt LBm.std_sshape srt_nojson LBm.codes
+           TL.Proofs.ScalarsToyLemmas.toy_laws LBp.toy_fold_laws srt_nojson_laws
+           (LBp.std_text_laws srt_nojson TL.Model.ScalarsToy.toy_rt (fun _ => eq_refl) (fun _ => eq_refl)) ex2_uuid_facts).
 Qed.
 Lemma ex2_joint :
   Sc.RuntimeLaws ex2_srt_rt /\ LBm.FoldLaws ex2_srt_rt /\ LBm.SLoadLaw LBm.std_sshape srt_nojson ex2_srt_rt /\
